@@ -19,6 +19,7 @@ TraceInit ==
     /\ t \in 1..NTraces /\ l = 1
     /\ hs = Log[t].init
     /\ last = [kind |-> "init", h |-> 0]
+    /\ reg = {}
 
 e == Ev(t)[l]
 Adv == l' = l + 1 /\ t' = t
@@ -99,9 +100,17 @@ TFreeze ==
     /\ Freeze(e.h)
     /\ StateAfter(e.h) /\ Queries /\ Adv
 
+(* run-time registration of the (one) dynamic type of the trace; e.a.k = 1: as a singleton *)
+TRegister ==
+    /\ e.op = "register"
+    /\ Check(t, l, "Outcome", e.res = "ok")
+    /\ Register("DYN", e.a.k = 1)
+    /\ Check(t, l, "OperandsUnchanged", \A x \in 1..N : SameItems(x) /\ SameMeta(x))
+    /\ Queries /\ Adv
+
 TraceNext ==
     /\ l <= Len(Ev(t))
-    /\ TInitEv \/ TDo \/ TMake \/ TFreeze
+    /\ TInitEv \/ TDo \/ TMake \/ TFreeze \/ TRegister
 
 Accepted == Accepting(t, l)
 =============================================================================
